@@ -54,7 +54,7 @@ package criteria_ordering
 
 // Parse: the ordering is the one the request names; none named stays empty (the first registered resolver is then taken)
 //@ func Parse
-//@   property C15 C16 C20
+//@   property C15 C16 C20 C07 C09
 //@   ensures [as_requested_empty_when_absent] fresh(result) && result.Ordering == (decoded_has(*props, "Ordering") ? decoded_str(*props, "Ordering") : "")
 
 // the ordering named in the request (the first registered one when none is named); unknown names are rejected
@@ -76,3 +76,33 @@ package criteria_ordering
 //@ wire randomProps
 //@   property C01 C15 C20
 //@   json RandomSeed=randomSeed
+
+// ---- registered names (what a request must say to select this object; what error messages list)
+//@ func (*RandomCriteriaOrderingResolver).Identifier
+//@   property C15 C20
+//@   nopanic
+//@   ensures [name] result == "random"
+
+// ---- registered names (what a request must say to select this object; what error messages list)
+//@ func (*StrongestByProbabilityCriteriaOrderingResolver).Identifier
+//@   property C15 C20
+//@   nopanic
+//@   ensures [name] result == "strongestByProbability"
+
+// ---- registered names (what a request must say to select this object; what error messages list)
+//@ func (*StrongestCriteriaOrderingResolver).Identifier
+//@   property C15 C20
+//@   nopanic
+//@   ensures [name] result == "strongest"
+
+// ---- registered names (what a request must say to select this object; what error messages list)
+//@ func (*WeakestByProbabilityCriteriaOrderingResolver).Identifier
+//@   property C15 C20
+//@   nopanic
+//@   ensures [name] result == "weakestByProbability"
+
+// ---- registered names (what a request must say to select this object; what error messages list)
+//@ func (*WeakestCriteriaOrderingResolver).Identifier
+//@   property C15 C20
+//@   nopanic
+//@   ensures [name] result == "weakest"
